@@ -255,6 +255,16 @@ func (c *SizedLRU) RemoveElement(elem *list.Element) {
 	c.gaugeCacheLogicalBytes.Set(float64(c.uncompressedSize))
 }
 
+// RemoveIfCurrent removes elem from the cache, but only if it is still the
+// element stored under key. Callers that obtained elem in an earlier critical
+// section must use this instead of RemoveElement, because another request may
+// have removed (or replaced) the element in the meantime.
+func (c *SizedLRU) RemoveIfCurrent(key string, elem *list.Element) {
+	if cur, found := c.cache[key]; found && cur == elem {
+		c.RemoveElement(elem)
+	}
+}
+
 // Len returns the number of items in the cache
 func (c *SizedLRU) Len() int {
 	return len(c.cache)
